@@ -105,14 +105,35 @@ def table(f, v):
     return fwd, inv
 
 
+LONG_CHAR = "b"          # the letter a long-run token "L<n>" (CodecCases.LTok) is made of
+LONG_MIN = 64
+
+
+def is_long(t):
+    return len(t) > 1 and t[0] == "L" and t[1:].isdigit()
+
+
 def render(tokens, f, v):
     fwd, _ = table(f, v)
-    return "".join(fwd[t] for t in tokens)
+    return "".join(LONG_CHAR * int(t[1:]) if is_long(t) else fwd[t] for t in tokens)
 
 
 def tokenize(text, f, v):
     _, inv = table(f, v)
-    return [inv.get(ch) or ("?%x" % ord(ch)) for ch in text]
+    out, i = [], 0
+    while i < len(text):
+        ch = text[i]
+        if ch == LONG_CHAR:
+            j = i
+            while j < len(text) and text[j] == LONG_CHAR:
+                j += 1
+            if j - i >= LONG_MIN:            # a run of the long-cell letter is read back as the one token it was written from
+                out.append("L%d" % (j - i))
+                i = j
+                continue
+        out.append(inv.get(ch) or ("?%x" % ord(ch)))
+        i += 1
+    return out
 
 
 def json_input(stream, f, v):
@@ -223,6 +244,10 @@ def validate(obs, chunk=None, threads=None):
 
 
 PLAIN = set(SELF)
+# lengths of the long cells: windows below the multiples of 4096 (so that, with the few bytes of key, separators and line
+# ending around them, the lines' lengths straddle 4 KiB, 8 KiB and 64 KiB)
+LONG_N = {"quick": "{%s}" % ", ".join(str(n) for n in list(range(4078, 4099)) + list(range(8176, 8195))),
+          "thorough": "{%s}" % ", ".join(str(n) for n in list(range(4060, 4101)) + list(range(8150, 8197)) + list(range(65500, 65541)))}
 
 
 def features(x, p):
@@ -260,7 +285,7 @@ def run(tier, seed):
 
     # ---- the laws on the specification and the cases: one TLC pass per format (CodecGen checks Laws and prints) ---
     def per_format(f):
-        consts = {"MaxTok": maxtok, "F": '"%s"' % f}
+        consts = {"MaxTok": maxtok, "F": '"%s"' % f, "LongN": LONG_N["thorough" if thorough else "quick"]}
         cfg = b3.cfg_text(consts, invariants=["Laws", "Emit"])
         r = vlib.tlc("CodecGen", cfg="gen.cfg", extra_files={"gen.cfg": cfg}, workers=1, timeout=3000)
         if r.error:
@@ -285,7 +310,7 @@ def run(tier, seed):
         # quick: every wide/heterogeneous stream and every probe of at most one token; a seeded sample of the two-token probes
         keep = []
         for x in cases:
-            small = x["fam"] == "X" or max(len(c) for r in x["s"] for kv in r for c in kv) <= 1
+            small = x["fam"] in ("X", "XL") or max(len(c) for r in x["s"] for kv in r for c in kv) <= 1
             if x["k"] == "rt":
                 if small or rnd.random() < 0.13:
                     keep.append(x)
